@@ -173,6 +173,19 @@ inline FlexPath* mkflex(Tag t0, Tag t1) {
     fp->segment(Vec2{4, 3}, NULL, NULL, false);
     return fp;
 }
+// 2-element flexpath whose corners are drawn as circular bends (radius 1, room on both legs)
+inline FlexPath* mkflex_bend(Tag t0, Tag t1) {
+    FlexPath* fp = (FlexPath*)allocate_clear(sizeof(FlexPath));
+    double w[2] = {0.4, 0.3}, o[2] = {0.5, -0.5};
+    Tag tg[2] = {t0, t1};
+    fp->init(Vec2{0, 0}, 2, w, o, 1e-2, tg);
+    fp->scale_width = true;
+    for (int e = 0; e < 2; e++) { fp->elements[e].bend_type = BendType::Circular; fp->elements[e].bend_radius = 1.0; }
+    fp->segment(Vec2{5, 0}, NULL, NULL, false);
+    fp->segment(Vec2{5, 4}, NULL, NULL, false);
+    fp->segment(Vec2{9, 4}, NULL, NULL, false);
+    return fp;
+}
 inline RobustPath* mkrobust(Tag t0, Tag t1) {
     RobustPath* rp = (RobustPath*)allocate_clear(sizeof(RobustPath));
     double w[2] = {0.5, 0.3}, o[2] = {0.5, -0.5};
@@ -186,12 +199,12 @@ static const Tag TAG_A = make_tag(1, 0), TAG_B = make_tag(2, 0), TAG_C = make_ta
 
 enum LeafKind {
     L_SQUARE = 0, L_THIN, L_TRIANGLE, L_LABEL1, L_LABEL2, L_ROW_H, L_ROW_V, L_ROW_D, L_ROW_AD, L_EMPTY, L_FLEX, L_ROBUST,
-    L_POLY_RECT, L_POLY_REGULAR, L_POLY_EXPLICIT, L_POLY_EXPLICIT_X, L_POLY_EXPLICIT_Y, L_ZERO_AREA_AD, L_LABEL_EXPLICIT, L_MIXED, L_SAME_POINT, L_POLY_REG_1COL, L_LABEL_REG_1ROW, NLEAF
+    L_POLY_RECT, L_POLY_REGULAR, L_POLY_EXPLICIT, L_POLY_EXPLICIT_X, L_POLY_EXPLICIT_Y, L_ZERO_AREA_AD, L_LABEL_EXPLICIT, L_MIXED, L_SAME_POINT, L_POLY_REG_1COL, L_LABEL_REG_1ROW, L_FLEX_BEND, NLEAF
 };
 inline const char* leaf_name(int k) {
     static const char* n[] = {"unit_square", "thin_rectangle", "triangle", "one_label", "two_labels", "label_row_horizontal", "label_row_vertical", "label_row_diagonal",
                               "label_row_antidiagonal", "empty", "flexpath_2el", "robustpath_2el", "polygon+rect_rep", "polygon+regular_rep", "polygon+explicit_rep",
-                              "polygon+explicit_x_rep", "polygon+explicit_y_rep", "zero_area_polygon_antidiagonal", "label+explicit_rep", "mixed_poly_label_paths_with_reps", "five_labels_same_point", "polygon+regular_1col_rep", "label+regular_1row_rep"};
+                              "polygon+explicit_x_rep", "polygon+explicit_y_rep", "zero_area_polygon_antidiagonal", "label+explicit_rep", "mixed_poly_label_paths_with_reps", "five_labels_same_point", "polygon+regular_1col_rep", "label+regular_1row_rep", "flexpath_circular_bends"};
     return n[k];
 }
 inline bool leaf_degenerate(int k) { return k == L_LABEL1 || k == L_LABEL2 || (k >= L_ROW_H && k <= L_EMPTY) || k == L_ZERO_AREA_AD || k == L_SAME_POINT; }
@@ -233,6 +246,7 @@ inline void fill_leaf(Cell* c, int kind) {
         } break;
         case L_SAME_POINT: for (int i = 0; i < 5; i++) c->label_array.append(mklabel("s", Vec2{2, 3}, TAG_C)); break;
         case L_POLY_REG_1COL: { Polygon* p = mkpoly({{0, 0}, {2, 0}, {1, 1.5}}, TAG_A); set_rep(p->repetition, REP_REGULAR_1COL); c->polygon_array.append(p); } break;
+        case L_FLEX_BEND: c->flexpath_array.append(mkflex_bend(TAG_A, TAG_B)); break;
         case L_LABEL_REG_1ROW: { Label* l = mklabel("g", Vec2{1, 1}, TAG_C); set_rep(l->repetition, REP_REGULAR_1ROW); c->label_array.append(l); } break;
     }
 }
@@ -292,6 +306,27 @@ inline bool same_cycle(const std::vector<Vec2>& a, const std::vector<Vec2>& b, d
             if (ok) return true;
         }
     return false;
+}
+// curved outlines (arcs are re-sampled when a path is polygonised after a magnification): every vertex of one polyline within tol
+// of the other closed polyline, both ways
+inline double dist_to_closed_polyline(Vec2 p, const std::vector<Vec2>& b) {
+    double best = INFINITY;
+    size_t n = b.size();
+    for (size_t i = 0; i < n; i++) {
+        Vec2 a = b[i], c = b[(i + 1) % n];
+        double dx = c.x - a.x, dy = c.y - a.y, L2 = dx * dx + dy * dy;
+        double t = L2 > 0 ? ((p.x - a.x) * dx + (p.y - a.y) * dy) / L2 : 0;
+        t = t < 0 ? 0 : t > 1 ? 1 : t;
+        double ex = a.x + t * dx - p.x, ey = a.y + t * dy - p.y;
+        best = std::min(best, sqrt(ex * ex + ey * ey));
+    }
+    return best;
+}
+inline bool same_outline_within(const std::vector<Vec2>& a, const std::vector<Vec2>& b, double tol) {
+    if (a.empty() || b.empty()) return a.empty() && b.empty();
+    for (auto& p : a) if (dist_to_closed_polyline(p, b) > tol) return false;
+    for (auto& p : b) if (dist_to_closed_polyline(p, a) > tol) return false;
+    return true;
 }
 inline bool same_sequence(const std::vector<Vec2>& a, const std::vector<Vec2>& b, double tol) {
     if (a.size() != b.size()) return false;
